@@ -47,6 +47,9 @@ type jnode struct {
 // (real json yields float64). Only re-marshalling understands it.
 type symFloat struct{ T *Term; Signed bool }
 
+// jsonOpaqueVal is an opaque JSON leaf (time.Time, []byte) sitting in an interface{} as "string"
+type jsonOpaqueVal struct{ n *jnode }
+
 func isTimeType(t types.Type) bool {
 	n, ok := t.(*types.Named)
 	return ok && n.Obj().Pkg() != nil && n.Obj().Pkg().Path() == "time" && n.Obj().Name() == "Time"
@@ -237,6 +240,9 @@ func (e *Engine) jsonToTree(v Value, t types.Type, depth int) *jnode {
 		x := v.(Iface)
 		if x.T == nil {
 			return &jnode{K: jNull}
+		}
+		if ov, ok := x.V.(jsonOpaqueVal); ok {
+			return ov.n
 		}
 		if sf, ok := x.V.(symFloat); ok {
 			tt := types.Typ[types.Uint64]
@@ -603,10 +609,12 @@ func (e *Engine) jsonToAny(n *jnode, depth int) Value {
 					w = e.tb.ZExt(x, 64)
 				}
 			}
-			return Iface{T: types.Typ[types.Float64], V: symFloat{T: w, Signed: signed}}
+			return Iface{T: types.Typ[types.Float64], V: symFloat{T: e.jsonRoundFloat(w, signed), Signed: signed}}
 		}
 	case jOpaque:
-		return Iface{T: types.Typ[types.String], V: Str{S: "<opaque>"}}
+		// time.Time / []byte travel through interface{} as their JSON string; the text is not
+		// materialised, the leaf itself is carried along (the round trip of both is exact)
+		return Iface{T: types.Typ[types.String], V: jsonOpaqueVal{n}}
 	case jArr:
 		nb := &Backing{E: make([]Value, len(n.Kids))}
 		for i, k := range n.Kids {
@@ -637,4 +645,29 @@ func (e *Engine) jsonUnmarshalTree(n *jnode, p Ptr, elem types.Type) (res Value)
 	old := e.load(p)
 	e.store(p, e.jsonFromTree(n, elem, old, 0))
 	return Iface{}
+}
+
+// jsonRoundFloat models what happens to a 64-bit integer that is decoded into interface{}:
+// it becomes a float64. Magnitudes up to 2^53 are exact; in (2^53, 2^54) the value is rounded to
+// the nearest even multiple of 2 (ties to even mantissa); larger magnitudes end the path as
+// unsupported.
+func (e *Engine) jsonRoundFloat(w *Term, signed bool) *Term {
+	tb := e.tb
+	zero, one := tb.Const(64, 0), tb.Const(64, 1)
+	abs := w
+	if signed {
+		abs = tb.Ite(tb.Cmp(OpSlt, w, zero), tb.Bin(OpSub, zero, w), w)
+	}
+	if e.Branch(tb.Cmp(OpUle, abs, tb.Const(64, uint64(1)<<53))) {
+		return w
+	}
+	if !e.Branch(tb.Cmp(OpUlt, abs, tb.Const(64, uint64(1)<<54))) {
+		panic(e.unsupported("json: integer beyond 2^54 decoded into interface{} (float64 rounding not modelled)"))
+	}
+	odd := tb.Eq(tb.Bin(OpAnd, w, one), one)
+	down := tb.Bin(OpSub, w, one)
+	up := tb.Bin(OpAdd, w, one)
+	// of the two even neighbours the one whose half is even has the even mantissa
+	halfEven := tb.Eq(tb.Bin(OpAnd, tb.Bin(OpAShr, down, one), one), zero)
+	return tb.Ite(odd, tb.Ite(halfEven, down, up), w)
 }
